@@ -27,7 +27,9 @@ RULE = ("cases: event streams of 1-6 events built from field lines (data x 0-3, 
         "generated fragmentation, with 0-2 parse passes that bring no new bytes after each read, via EventSource, "
         "close-delimited Respondent and chunked Respondent. non-trivial = >= 2 "
         "terminator kinds, a multi-line data field, and a cut between a CR and the following byte; distinct = canonical hash")
-ASSUMPTIONS = ["retry values are either ASCII digit strings or clearly non-numeric (signs / underscores are not generated: "
+ASSUMPTIONS = ["for a stream that ends inside a block, the last event id may be the one of the unfinished block (tracked at the id line) "
+               "or still the one of the last dispatched block (tracked at dispatch): both are accepted",
+               "retry values are either ASCII digit strings or clearly non-numeric (signs / underscores are not generated: "
                "the statement does not define them)", "no byte order mark (hio's parseEvents does not document one)"]
 
 EOL = {"crlf": b"\r\n", "lf": b"\n", "cr": b"\r"}
@@ -63,6 +65,7 @@ def reference(stream):
     retry = None
     ename = ""
     parts = []
+    reference.leid_at_dispatch = None
     for ln in lines:
         if not ln:
             data = "\n".join(parts) if parts else ""
@@ -70,6 +73,7 @@ def reference(stream):
                 events.append({"id": leid, "name": ename, "data": data})
             ename = ""
             parts = []
+            reference.leid_at_dispatch = leid       # the id as of the last completed block
             continue
         field, sep, value = ln.partition(b":")
         if sep and not field:
@@ -136,6 +140,10 @@ def run_case(case):
     r = Result()
     stream = build_stream(case["lines"])
     exp = reference(stream)
+    # The stream may end inside a block (a CR and the LF of the following blank line merge into one CRLF).  When the last
+    # event id is "tracked" for such an unfinished block is open: at the id line (what hio does) or when the block is
+    # dispatched (what the HTML standard does).  Both are accepted; they coincide whenever the stream ends with a blank line.
+    alt = (exp[0], reference.leid_at_dispatch, exp[2])
     tr = case["transport"]
     frag = lambda data: httpgen.fragments(data, case["cuts"])
     idle = tuple(case.get("idle") or (0,))
@@ -157,6 +165,10 @@ def run_case(case):
         pos += len(f)
         if stream[pos - 1:pos] == b"\r":
             cr_cut = True
+    if got == alt and whole in (exp, alt):
+        exp = alt
+    if whole == alt:
+        whole = exp
     if got != exp:
         what = _first_diff(got, exp)
         if whole == exp and cr_cut:
